@@ -1,5 +1,5 @@
 CONSTANTS
-  Programs <- SUsesSet
+  Programs <- Space
   CanonOrder <- MCOrder2
 INIT Init
 NEXT Next
